@@ -92,6 +92,15 @@ CHECKS = {
          "Data-race freedom is decided on the lock-discipline model and observed on the real code by the race detector on exactly the "
          "pairs the model shows to be critical; linearisability of responses is checked against fresh containers for every state of the window.",
          "6 C12", "Trusted: TLC, the Go race detector (dynamic), one mutator goroutine; a 30 s watchdog defines deadlock."),
+ "C13": ("TLC exhaustive model checking of MC_Pool (N processes x Rounds of Acquire / Close / nil / second Close on the bounded channel cache "
+         "for several (N, K) incl. K = 0, and on the sync.Pool bag; invariants Exclusive / NeverBlocks / CacheBounded, liveness Completion under "
+         "weak fairness; legacy check-then-send release and a releasing second Close refuted) + TLC's legacy counterexample reproduced on the real "
+         "cache by spin-barrier rounds + TLC trace validation (PoolTrace) of the acquire/release ledger of an instrumenting provider around the "
+         "real providers under 8-64 goroutines of encoded responses, panicking handlers and gzip request bodies, bodies decoded and compared, "
+         "one part under the race detector, double Close per provider and coding",
+         "Exclusive ownership and non-blocking release are schedule properties: all interleavings on the model, the critical interleaving "
+         "forced on the real code by the barrier, random schedules judged by the ledger monitor.", "6 C13",
+         "Trusted: TLC, compress/*, the race detector; ledger events are logged under one mutex after acquire / before release."),
 }
 
 NOT_YET = "check under construction in this round; see DESIGN.md section 13 (build order)"
